@@ -92,6 +92,8 @@ def _compact_bytes(b):
                 return {"len": len(b), "pat": pat}
     return None
 TEXTDATA = Kind("TEXTDATA", st.text(min_size=1, max_size=24).map(lambda s: s.encode("utf-8")), is_bytes=True)
+# text content that may be empty (a status that is being cleared)
+TEXTDATA0 = Kind("TEXTDATA0", st.one_of(st.just(b""), st.text(min_size=0, max_size=24).map(lambda s: s.encode("utf-8"))), is_bytes=True)
 BOOL = Kind("BOOL", st.booleans())
 NONE = Kind("NONE", st.none())
 INT = Kind("INT", st.integers(1, 2 ** 31 - 1))
